@@ -45,8 +45,16 @@ def build(params):
         if r.random() < 0.4:
             # call-heavy programs: nested and recursive calls to step/next over
             force = {'procs': True, 'recursion': True, 'size': r.choice((10, 16, 24))}
-        sc = scen.generated_scenario(s, onerror=False, onerror_mode=None,
-                                     plant=r.random() < 0.2, **force)
+        if r.random() < 0.25:
+            # an armed handler that reads ERR, and planted run-time errors:
+            # stops between the error and the handler's statements
+            force.update(onerror=True, plant=True, plants=r.choice((1, 2)),
+                         onerror_mode=r.choice(('goto_next', 'goto_next', 'resume_next',
+                                                'goto_end', 'goto_reraise')))
+        else:
+            force.update(onerror=False, onerror_mode=None, plant=r.random() < 0.2)
+        force.setdefault('procs_mid', 0.3)
+        sc = scen.generated_scenario(s, **force)
     nlines = sc['text'].count('\n') + 1
     proc_lines = []
     inside = False
@@ -176,7 +184,11 @@ def execute(scn):
     plan = scn.get('plan')
     if plan is None and scn.get('irq_frac') is not None and fout['ticks'] > 2:
         # an interrupt request arriving while some command is executing
-        plan = [{'kind': 'F5a', 'tick': int(scn['irq_frac'] * (fout['ticks'] - 1))}]
+        # (F5a: delivered right before the instruction; F5p: pending when the
+        # previous instruction completes, so that a command can return to the
+        # prompt or re-enter run() with the request outstanding)
+        k = int(scn['irq_frac'] * (fout['ticks'] - 1))
+        plan = [{'kind': 'F5p' if (k >= 1 and int(scn['irq_frac'] * 1000) % 2) else 'F5a', 'tick': k}]
     if plan:
         scn = dict(scn, plan=plan)
         fsim, fout, PC, ST, DP, HL = free_trace(mi, scn['script'], plan)
@@ -340,7 +352,10 @@ def debug_run(scn, mi, res, fout, fhist, T, PC, ST, DP, HL):
                                        'cmd': cmd, 'index': idx, 'tick': n,
                                        'line': st1[2] if st1 else None}, sig={'cmd': word})
                 return res
-            if word == 'next' and not finished and not by_bp and DP[n] > d0:
+            # (RESUME / RESUME NEXT in a handler goes back into the suspended
+            # procedure the error occurred in: deeper, but not a call)
+            if word == 'next' and not finished and not by_bp and DP[n] > d0 \
+                    and not (st0 is not None and st0[6] == 'ResumeStmt'):
                 bad('C12:next-entered-callee', {'cmd': cmd, 'index': idx, 'tick': n,
                                                 'depth_before': d0, 'depth_after': DP[n],
                                                 'line': st1[2] if st1 else None}, sig={})
